@@ -60,15 +60,29 @@ VerdictDist ==
 
 \* sin(8.794 arcsec) = 4.2634515e-5
 SinPi0 == Dec(42634515, 12)
+\* chord between the geocentric and the topocentric direction, scaled by the distance BEFORE squaring (the chord itself is
+\* down to 4e-8 at 1000 AU and its square would sit at the 1e-16 resolution of Fix)
+ScaledChord2 ==
+  LET d == <<Mul(Sub(Ev.u1[1], Ev.u0[1]), Ev.dist), Mul(Sub(Ev.u1[2], Ev.u0[2]), Ev.dist), Mul(Sub(Ev.u1[3], Ev.u0[3]), Ev.dist)>>
+  IN Dot(d, d)
+\* chord <= horizontal parallax (as a sine, 1.002 slack for height and the sine/chord difference)
+ParLim == Mul(SinPi0, Dec(1002, 3))
 VerdictPar ==
-  LET d == <<Sub(Ev.u1[1], Ev.u0[1]), Sub(Ev.u1[2], Ev.u0[2]), Sub(Ev.u1[3], Ev.u0[3])>>
-      ch2 == Dot(d, d)
-      \* chord <= horizontal parallax (as a sine, 1.002 slack for height and the sine/chord difference)
-      lim == Mul(SinPi0, Dec(1002, 3))
-  IN Viol("WITNESS", Within(Dot(Ev.u0, Ev.u0), One, Dec(1, 12)) /\ Within(Dot(Ev.u1, Ev.u1), One, Dec(1, 12)))
-  \cup Viol("PARALLAX_BOUNDED", Le(Mul(ch2, Mul(Ev.dist, Ev.dist)), Mul(lim, lim)))
+  Viol("WITNESS", Within(Dot(Ev.u0, Ev.u0), One, Dec(1, 12)) /\ Within(Dot(Ev.u1, Ev.u1), One, Dec(1, 12)))
+  \cup Viol("PARALLAX_BOUNDED", Le(ScaledChord2, Mul(ParLim, ParLim)))
+\* ecliptical form: same displacement bound (a rotation of the frame does not change the chord), the topocentric latitude
+\* is a latitude, and sin s' = sin s * (geocentric / topocentric distance), a ratio within 1 +- rho*sin(pi) of 1
+VerdictParE ==
+  IF Ev.oc # "ok" THEN {"PARALLAX_ECL_TOTAL"}
+  ELSE LET \* |sin s' - sin s| * dist <= sin s * sin(pi0) * rho / (1 - rho sin(pi)) : factor 1.05 covers rho <= 1.0015 and
+           \* 1/(1 - 0.0427) at the closest distance of the quantifier (1e-3 AU)
+           dev == Mul(Ev.semi, Mul(SinPi0, Dec(105, 2))) IN
+       Viol("WITNESS", Within(Dot(Ev.u0, Ev.u0), One, Dec(1, 12)) /\ Within(Dot(Ev.u1, Ev.u1), One, Dec(1, 12)))
+       \cup Viol("PARALLAX_ECL_LATITUDE_RANGE", Ev.latok = 1)
+       \cup Viol("PARALLAX_ECL_BOUNDED", Le(ScaledChord2, Mul(ParLim, ParLim)))
+       \cup Viol("PARALLAX_ECL_SEMIDIAMETER", Le(Mul(Abs(Sub(Ev.tsemi, Ev.semi)), Ev.dist), Add(dev, Mul(Dec(1, 14), Ev.dist))))
 
-Verdict == CASE Ev.k = "ell" -> VerdictEll [] Ev.k = "dist" -> VerdictDist [] Ev.k = "par" -> VerdictPar [] OTHER -> {"UNKNOWN_KIND"}
+Verdict == CASE Ev.k = "ell" -> VerdictEll [] Ev.k = "dist" -> VerdictDist [] Ev.k = "par" -> VerdictPar [] Ev.k = "pare" -> VerdictParE [] OTHER -> {"UNKNOWN_KIND"}
 Blank == [k |-> "", a |-> Zero, f |-> Zero, lat |-> Zero, rm |-> Zero]
 Advance == IF Ev.k = "ell" THEN [k |-> "ell", a |-> Ev.a, f |-> Ev.f, lat |-> Ev.lat, rm |-> Ev.rm] ELSE Blank
 Init == TraceInit(Blank)
